@@ -655,6 +655,15 @@ func c16Envelope(c *Check, id string) {
 	}
 	c.Report(okTags && st.NumFields() >= 4, id, "ENVELOPE-TAGS", wrapFn, wrapFn.Pos(), "envelope fields", "every envelope field is exported and has a distinct JSON name (none is dropped or merged by the codec)")
 	// constructor role: the function that stores into the envelope's fields
+	// the wire form keeps every field, also when it is empty: no json option drops or re-types a field
+	for i := 0; i < st.NumFields(); i++ {
+		tag := reflectTag(st.Tag(i), "json")
+		name, opts := tag, ""
+		if k := strings.Index(tag, ","); k >= 0 {
+			name, opts = tag[:k], tag[k+1:]
+		}
+		c.Report(name != "-" && opts == "", id, "ENVELOPE-FIELD-TAG", unwrapFn, st.Field(i).Pos(), "envelope."+st.Field(i).Name()+" `json:\""+tag+"\"`", "the envelope field is always encoded and decoded as it is (omitempty turns empty metadata into a nil map on the other side; string/- change or drop the value)")
+	}
 	var ctor *ssa.Function
 	for _, fn := range c.P.SrcFuncs(rel) {
 		n := 0
@@ -1093,4 +1102,9 @@ func c16Metadata(c *Check, id string) {
 		}
 	})
 	c.Report(okG, id, "METADATA-GET-READS", get, get.Pos(), "Metadata.Get", "Get looks up exactly the given key")
+}
+
+// reflectTag is reflect.StructTag.Get without importing reflect's conventions elsewhere.
+func reflectTag(tag, key string) string {
+	return reflect.StructTag(tag).Get(key)
 }
